@@ -8,6 +8,7 @@ import (
 	"encoding"
 	"encoding/json"
 	"fmt"
+	"hash/fnv"
 	"math"
 	"math/rand"
 	"mime/multipart"
@@ -35,6 +36,8 @@ import (
 //          (parsed by http.ReadRequest from generated text) served through the real middleware.Context API handler
 //          with a recording untyped handler. Observable: value and dynamic Go type received under the declared
 //          name, or (status, error code, message names the parameter), or a recovered panic.
+//   multi  one operation with several non-body parameters, one request: the names named by the error of the route's
+//          UntypedRequestBinder.Bind (a set), status, whether the handler ran, the values received
 //   canon  http.CanonicalHeaderKey on one name (the model's canon_key)
 //   int    strconv.ParseInt(txt, 10, 64) (the model's parse_int_dec)
 //   split  swag.SplitByFormat (the model's split_by_format incl. strings.TrimSpace)
@@ -64,6 +67,8 @@ type c03In struct {
 	Multipart bool     `json:"multipart,omitempty"`
 	// values sent in locations OTHER than the declared one (cross-location decoys): the binder must not see them
 	Decoys []c03Decoy `json:"decoys,omitempty"`
+	// kind "multi": several non-body parameters of ONE operation and ONE request carrying (or omitting) each of them
+	Params []c03MParam `json:"params,omitempty"`
 	S      Bs         `json:"s,omitempty"`
 	CF        Bs       `json:"scf,omitempty"`
 	Name      Bs       `json:"sname,omitempty"`
@@ -77,7 +82,26 @@ type c03Decoy struct {
 	Val Bs     `json:"val"`
 }
 
+// one declared parameter of a multi case and what the request sends for it in its own location
+type c03MParam struct {
+	Decl      *c03Decl `json:"decl"`
+	Pairs     [][2]Bs  `json:"pairs,omitempty"`
+	PathValue Bs       `json:"path_value,omitempty"`
+}
+
+// per parameter of a multi case: its oracle tables, whether the composite error of Bind names it, what the handler got
+type c03MObs struct {
+	Tab    c03Tab `json:"tab"`
+	Named  bool   `json:"named,omitempty"`
+	HasVal bool   `json:"has_val,omitempty"`
+	Val    string `json:"val,omitempty"`
+	ValCoq string `json:"val_coq,omitempty"`
+}
+
 type c03Obs struct {
+	Multi   []c03MObs `json:"multi,omitempty"`
+	BindErr []string  `json:"bind_err,omitempty"` // the leaf messages of the error UntypedRequestBinder.Bind returns
+
 	Panicked bool   `json:"panicked,omitempty"`
 	Panic    string `json:"panic,omitempty"`
 	Status   int    `json:"status,omitempty"`
@@ -563,7 +587,20 @@ func c03HeaderVariant(r *rand.Rand, name string) string {
 	return name
 }
 
-func (c03) Gen(r *rand.Rand, tier string, i int) any {
+func (p c03) Gen(r *rand.Rand, tier string, i int) any {
+	in := p.gen1(r, tier, i)
+	if i%10 == 9 {
+		// a multi-parameter case in the place of one case in ten; its choices come from a generator seeded
+		// with the replaced draw, so that the stream of r (hence every other case) stays what it was
+		raw, _ := json.Marshal(in)
+		h := fnv.New64a()
+		h.Write(raw)
+		return c03GenMulti(rand.New(rand.NewSource(int64(h.Sum64()>>1))))
+	}
+	return in
+}
+
+func (c03) gen1(r *rand.Rand, tier string, i int) any {
 	switch k := r.Intn(40); {
 	case k < 2:
 		var s string
@@ -777,6 +814,7 @@ func (c03) Enumerate(tier string) []any {
 		out = append(out, c03In{Kind: "canon", S: Bs(n)})
 	}
 	out = append(out, c03EnumCross()...)
+	out = append(out, c03EnumMulti()...)
 	if tier == "thorough" {
 		for _, f := range c03FmtNames {
 			for _, txt := range c03FmtTexts[f] {
@@ -968,8 +1006,14 @@ func c03ShapeOf(in c03In) c03Shape {
 
 // the request text; http.ReadRequest parses it exactly as a server would
 func c03RawRequest(in c03In) []byte {
-	d := in.Decl
-	sh := c03ShapeOf(in)
+	var rawQuery *Bs
+	if in.Decl.In == "query" {
+		rawQuery = in.RawQuery
+	}
+	return c03RawOf(c03ShapeOf(in), in.Multipart, rawQuery)
+}
+
+func c03RawOf(sh c03Shape, multipartBody bool, rawQuery *Bs) []byte {
 	var sb bytes.Buffer
 	method, target := "GET", "/x"
 	var body []byte
@@ -977,14 +1021,14 @@ func c03RawRequest(in c03In) []byte {
 	if sh.pathKey != "" {
 		target += "/" + url.PathEscape(sh.pathVal)
 	}
-	if d.In == "query" && in.RawQuery != nil {
-		target += "?" + string(*in.RawQuery)
+	if rawQuery != nil {
+		target += "?" + string(*rawQuery)
 	} else if len(sh.query) > 0 {
 		target += "?" + c03Encode(sh.query)
 	}
 	if sh.hasForm {
 		method = "POST"
-		if in.Multipart {
+		if multipartBody {
 			var mb bytes.Buffer
 			mw := multipart.NewWriter(&mb)
 			_ = mw.SetBoundary("verifboundary")
@@ -1051,17 +1095,25 @@ type c03Env struct {
 	ctx     *middleware.Context
 	handler http.Handler
 	param   spec.Parameter
+	params  []spec.Parameter
 	got     map[string]interface{}
 	ran     bool
 }
 
-func c03Build(d *c03Decl, sh c03Shape) *c03Env {
+func c03Build(d *c03Decl, sh c03Shape) *c03Env { return c03BuildAll([]*c03Decl{d}, sh) }
+
+// one operation declaring all of ds (in this order)
+func c03BuildAll(ds []*c03Decl, sh c03Shape) *c03Env {
 	path := "/x"
 	if sh.pathKey != "" {
 		path = "/x/{" + sh.pathKey + "}"
 	}
 	method := "get"
-	op := map[string]any{"operationId": "op", "parameters": []any{d.paramJSON()}, "responses": map[string]any{"200": map[string]any{"description": "ok"}}, "produces": []string{"application/json"}}
+	params := make([]any, len(ds))
+	for i, d := range ds {
+		params[i] = d.paramJSON()
+	}
+	op := map[string]any{"operationId": "op", "parameters": params, "responses": map[string]any{"200": map[string]any{"description": "ok"}}, "produces": []string{"application/json"}}
 	if sh.hasForm {
 		method = "post"
 		op["consumes"] = []string{"application/x-www-form-urlencoded", "multipart/form-data"}
@@ -1086,10 +1138,11 @@ func c03Build(d *c03Decl, sh c03Shape) *c03Env {
 	env.handler = env.ctx.APIHandler(nil)
 	pi := doc.Spec().Paths.Paths[path]
 	if method == "post" {
-		env.param = pi.Post.Parameters[0]
+		env.params = pi.Post.Parameters
 	} else {
-		env.param = pi.Get.Parameters[0]
+		env.params = pi.Get.Parameters
 	}
+	env.param = env.params[0]
 	return env
 }
 
@@ -1352,74 +1405,56 @@ func c03OverflowFloat32(x float64) bool {
 	return math.MaxFloat32 < x && x <= math.MaxFloat64
 }
 
-func (c03) Run(inAny any) any {
-	in := inAny.(c03In)
-	var obs c03Obs
-	switch in.Kind {
-	case "canon":
-		obs.R = Bs(http.CanonicalHeaderKey(string(in.S)))
-		return obs
-	case "int":
-		z, err := strconv.ParseInt(string(in.S), 10, 64)
-		obs.OK, obs.Z = err == nil, z
-		if err != nil {
-			obs.Z = 0
+// the sources as net/http and the router parse them (from a separate copy of the request)
+func c03Sources(env *c03Env, raw []byte, sh c03Shape, multipart bool, obs *c03Obs) {
+	req := c03ReadRequest(raw)
+	obs.Query = c03Flatten(req.URL.Query())
+	obs.Header = c03Flatten(req.Header)
+	if mr, _, ok := env.ctx.RouteInfo(req); ok {
+		for _, p := range mr.Params {
+			obs.Path = append(obs.Path, [2]Bs{Bs(p.Name), Bs(p.Value)})
 		}
-		return obs
-	case "split":
-		obs.Items = toBs(swag.SplitByFormat(string(in.S), string(in.CF)))
-		return obs
-	case "read":
-		vals := runtime.Values{}
-		for _, p := range in.Pairs {
-			vals[string(p[0])] = append(vals[string(p[0])], string(p[1]))
-		}
-		obs.R = Bs(runtime.ReadSingleValue(vals, string(in.Name)))
-		obs.Items = toBs(runtime.ReadCollectionValue(vals, string(in.Name), string(in.CF)))
-		return obs
 	}
-	d := in.Decl
-	raw := c03RawRequest(in)
-	sh := c03ShapeOf(in)
-	env := c03Build(d, sh)
+	if sh.hasForm { // the fields of the form body alone (PostForm / MultipartForm.Value), whatever the declared location
+		if multipart {
+			if err := req.ParseMultipartForm(32 << 20); err != nil && (c03QueryParses(req) || req.MultipartForm == nil) {
+				panic("harness: multipart body does not parse: " + err.Error())
+			}
+			obs.Form = c03Flatten(req.MultipartForm.Value)
+		} else {
+			if err := req.ParseForm(); err != nil && c03QueryParses(req) {
+				panic("harness: form body does not parse: " + err.Error())
+			}
+			obs.Form = c03Flatten(req.PostForm)
+		}
+	}
+}
+
+// the oracle tables of one declared parameter against the recorded sources of the request (srcs.Query/Header/Path/Form):
+// strfmt UnmarshalText and strconv.ParseFloat over every text of the parameter's location, its items and the empty
+// text; the validate library's verdict on the value the binder alone produces (hook VerifBindParam)
+type c03Tab struct {
+	Regs       []string      `json:"regs,omitempty"`
+	Fmts       []c03FmtEnt   `json:"fmts,omitempty"`
+	Floats     []c03FloatEnt `json:"floats,omitempty"`
+	Valid      int           `json:"valid,omitempty"`
+	DefCoq     string        `json:"def_coq,omitempty"`
+	BindFailed bool          `json:"bind_failed,omitempty"` // the binder alone (no validator) rejects the parameter
+}
+
+func c03Tables(d *c03Decl, param spec.Parameter, env *c03Env, raw []byte, srcs *c03Obs) c03Tab {
+	var obs c03Tab
 	formats := env.api.Formats()
-
-	// 1. the sources as net/http and the router parse them (a separate copy of the request)
-	{
-		req := c03ReadRequest(raw)
-		obs.Query = c03Flatten(req.URL.Query())
-		obs.Header = c03Flatten(req.Header)
-		if mr, _, ok := env.ctx.RouteInfo(req); ok {
-			for _, p := range mr.Params {
-				obs.Path = append(obs.Path, [2]Bs{Bs(p.Name), Bs(p.Value)})
-			}
-		}
-		if sh.hasForm { // the fields of the form body alone (PostForm / MultipartForm.Value), whatever the declared location
-			if in.Multipart {
-				if err := req.ParseMultipartForm(32 << 20); err != nil && (c03QueryParses(req) || req.MultipartForm == nil) {
-					panic("harness: multipart body does not parse: " + err.Error())
-				}
-				obs.Form = c03Flatten(req.MultipartForm.Value)
-			} else {
-				if err := req.ParseForm(); err != nil && c03QueryParses(req) {
-					panic("harness: form body does not parse: " + err.Error())
-				}
-				obs.Form = c03Flatten(req.PostForm)
-			}
-		}
-	}
-
-	// 2. oracle tables over every text of the parameter's location, its items, and the empty text
 	var src [][2]Bs
 	switch d.In {
 	case "query":
-		src = obs.Query
+		src = srcs.Query
 	case "header":
-		src = obs.Header
+		src = srcs.Header
 	case "path":
-		src = obs.Path
+		src = srcs.Path
 	default:
-		src = obs.Form
+		src = srcs.Form
 	}
 	texts := []string{""}
 	seen := map[string]bool{"": true}
@@ -1471,18 +1506,20 @@ func (c03) Run(inAny any) any {
 	}
 	obs.DefCoq = c03DefaultCoq(d, formats)
 
-	// 3. the validate library's verdict on the value the binder alone produces (hook VerifBindParam)
 	recoverTo(func() {
 		req := c03ReadRequest(raw)
 		var rp middleware.RouteParams
 		if mr, _, ok := env.ctx.RouteInfo(req); ok {
 			rp = mr.Params
 		}
-		val, tpe, err := middleware.VerifBindParam(env.param, env.doc.Spec(), formats, req, rp)
+		val, tpe, err := middleware.VerifBindParam(param, env.doc.Spec(), formats, req, rp)
+		if err != nil {
+			obs.BindFailed = true
+		}
 		if err != nil || tpe == nil {
 			return
 		}
-		p := env.param
+		p := param
 		res := validate.NewParamValidator(&p, formats).Validate(c03ValidationForm(val, d))
 		if res != nil && res.HasErrors() {
 			obs.Valid = -1
@@ -1491,6 +1528,51 @@ func (c03) Run(inAny any) any {
 			}
 		}
 	})
+	return obs
+}
+
+func (c03) Run(inAny any) any {
+	in := inAny.(c03In)
+	var obs c03Obs
+	switch in.Kind {
+	case "canon":
+		obs.R = Bs(http.CanonicalHeaderKey(string(in.S)))
+		return obs
+	case "int":
+		z, err := strconv.ParseInt(string(in.S), 10, 64)
+		obs.OK, obs.Z = err == nil, z
+		if err != nil {
+			obs.Z = 0
+		}
+		return obs
+	case "split":
+		obs.Items = toBs(swag.SplitByFormat(string(in.S), string(in.CF)))
+		return obs
+	case "read":
+		vals := runtime.Values{}
+		for _, p := range in.Pairs {
+			vals[string(p[0])] = append(vals[string(p[0])], string(p[1]))
+		}
+		obs.R = Bs(runtime.ReadSingleValue(vals, string(in.Name)))
+		obs.Items = toBs(runtime.ReadCollectionValue(vals, string(in.Name), string(in.CF)))
+		return obs
+	}
+	if in.Kind == "multi" {
+		return c03RunMulti(in)
+	}
+	d := in.Decl
+	raw := c03RawRequest(in)
+	sh := c03ShapeOf(in)
+	env := c03Build(d, sh)
+	formats := env.api.Formats()
+
+	// 1. the sources as net/http and the router parse them (a separate copy of the request)
+	c03Sources(env, raw, sh, in.Multipart, &obs)
+
+	// 2. oracle tables over every text of the parameter's location, its items, and the empty text
+	// 3. the validate library's verdict on the value the binder alone produces (hook VerifBindParam)
+	tab := c03Tables(d, env.param, env, raw, &obs)
+	obs.Regs, obs.Fmts, obs.Floats, obs.Valid, obs.DefCoq = tab.Regs, tab.Fmts, tab.Floats, tab.Valid, tab.DefCoq
 
 	// 4. the real thing
 	rec := httptest.NewRecorder()
@@ -1570,29 +1652,15 @@ func (c03) Coq(inAny any, obsAny any) string {
 	case "read":
 		return fmt.Sprintf("CRead %s %s %s %s %s", c03Pairs(in.Pairs), coqBytes(string(in.Name)), coqBytes(string(in.CF)), coqBytes(string(obs.R)), coqBytesList(bsList(obs.Items)))
 	}
+	if in.Kind == "multi" {
+		return c03CoqMulti(in, obs)
+	}
 	d := in.Decl
-	loc := map[string]string{"query": "LQuery", "header": "LHeader", "path": "LPath", "formData": "LForm"}[d.In]
-	itemKind := "None"
-	if d.Type == "array" {
-		itemKind = "(Some " + c03Kind(d.ItemType) + ")"
-	}
-	decl := fmt.Sprintf("{| d_name := %s; d_in := %s; d_kind := %s; d_format := %s; d_item_kind := %s; d_item_format := %s; d_cf := %s; d_required := %s; d_default := %s; d_allow_empty := %s |}",
-		coqBytes(d.Name), loc, c03Kind(d.Type), coqBytes(d.Format), itemKind, coqBytes(d.ItemFormat), coqBytes(d.CF), coqBool(d.Required), obs.DefCoq, coqBool(d.AllowEmpty))
-	rq := fmt.Sprintf("{| r_query := %s; r_header := %s; r_path := %s; r_form := %s |}", c03Pairs(obs.Query), c03Pairs(obs.Header), c03Pairs(obs.Path), c03Pairs(obs.Form))
-	fmts := coqList(obs.Fmts, func(e c03FmtEnt) string {
-		return coqPair(coqPair(coqBytes(e.F), coqBytes(string(e.T))), coqOpt(e.OK, coqBytes(string(e.R))))
-	})
-	floats := coqList(obs.Floats, func(e c03FloatEnt) string {
-		return coqPair(coqBytes(string(e.T)), coqOpt(e.OK, fmt.Sprintf("((%d)%%Z, %s, (%d)%%Z)", e.B64, coqBool(e.Ov32), e.B32)))
-	})
-	valid := "None"
-	if obs.Valid != 0 {
-		v := obs.Valid
-		if v < 0 {
-			v = 0
-		}
-		valid = fmt.Sprintf("(Some %s)", coqNatBig(v))
-	}
+	decl := c03CoqDecl(d, obs.DefCoq)
+	rq := c03CoqRequest(obs)
+	fmts := c03CoqFmts(obs.Fmts)
+	floats := c03CoqFloats(obs.Floats)
+	valid := c03CoqValid(obs.Valid)
 	var o string
 	switch {
 	case obs.Panicked:
@@ -1609,6 +1677,9 @@ func (c03) Coq(inAny any, obsAny any) string {
 
 func (c03) Classify(inAny any, obsAny any) []string {
 	in, obs := inAny.(c03In), obsAny.(c03Obs)
+	if in.Kind == "multi" {
+		return nil
+	}
 	// F-C03-4: a default that does not conform to the declared type (outside the description language) is
 	// consulted and the binder panics in reflect instead of answering an error
 	if in.Kind == "bind" && obs.Panicked && obs.DefCoq == "(Some DIll)" && strings.HasPrefix(obs.Panic, "reflect") {
@@ -1704,6 +1775,8 @@ func (c03) Category(inAny any, obsAny any) (string, bool) {
 		return "split/" + string(in.CF), strings.ContainsAny(string(in.S), ",| \t")
 	case "read":
 		return "read", len(in.Pairs) > 0
+	case "multi":
+		return c03CategoryMulti(in, obs)
 	}
 	d := in.Decl
 	// does the declared name occur in the request (by the rule of the location)?
@@ -1771,3 +1844,430 @@ func (c03) Category(inAny any, obsAny any) (string, bool) {
 	return cat, nontrivial
 }
 
+
+// ------------------------------------------------------------------ several parameters of one request (kind "multi")
+//
+// One operation declares k >= 2 non-body parameters (query, header, formData, at most one path parameter; names
+// distinct, no name a substring of another), ONE request carries a text for each of them (or omits it), a random
+// subset of the texts is invalid: unparsable for the type, breaking a declared validation (maximum, minimum, enum,
+// multipleOf, pattern, min/maxLength, min/maxItems, uniqueItems), or missing although required. The request is
+// bound by the route's real UntypedRequestBinder.Bind (matched by the real router) and served by the API handler.
+// Observable: the set of declared names that the leaves of the returned error name; status and whether the handler
+// ran; the values the handler received. Expected: exactly the parameters that the single-parameter judgement
+// (model / specification, with the oracles of that parameter) rejects are named, whatever the map order.
+
+var c03MultiNames = map[string][]string{
+	"query":    {"limit9", "tags7", "q_1", "a.b9"},
+	"header":   {"X-Rate-Lim", "x-low7", "Trace7Id"},
+	"formData": {"fcolour3", "f.size8", "Fmode5"},
+	"path":     {"id9"},
+}
+
+func c03MultiDecl(r *rand.Rand, in, name string) *c03Decl {
+	d := &c03Decl{Name: name, In: in}
+	array := r.Intn(4) == 0
+	var t c03TypeChoice
+	switch k := r.Intn(10); {
+	case k < 4:
+		t = c03TypeChoice{"integer", c03Pick(r, []string{"int8", "int32", "int64", ""})}
+	case k < 6:
+		t = c03TypeChoice{"number", c03Pick(r, []string{"float", "double", ""})}
+	case k < 7:
+		t = c03TypeChoice{"boolean", ""}
+	case k < 9:
+		t = c03TypeChoice{"string", ""}
+	default:
+		t = c03TypeChoice{"string", c03Pick(r, []string{"date", "uuid", "email", "duration"})}
+	}
+	val := func(array bool) map[string]json.RawMessage {
+		if r.Intn(4) == 0 {
+			return nil
+		}
+		for j := 0; j < 8; j++ {
+			if m := c03Validations(r, t, array); m != nil {
+				return m
+			}
+		}
+		return nil
+	}
+	if array {
+		d.Type = "array"
+		d.ItemType, d.ItemFormat = t.typ, t.format
+		d.CF = c03Pick(r, []string{"", "csv", "pipes", "ssv"})
+		if in == "query" || in == "formData" {
+			d.CF = c03Pick(r, c03CFs)
+		}
+		if r.Intn(2) == 0 {
+			d.ItemExtra = val(false)
+		} else {
+			d.Extra = val(true)
+		}
+	} else {
+		d.Type, d.Format = t.typ, t.format
+		d.Extra = val(false)
+	}
+	d.Required = in == "path" || r.Intn(3) == 0
+	if !d.Required && r.Intn(5) == 0 && !array {
+		d.Default = c03Default(r, t, false)
+	}
+	return d
+}
+
+// a text for one scalar: half of the time one that every declared validation of the generator accepts, else one
+// that some validation may refuse, else anything from the type's corpus (unparsable literals included)
+func c03MultiScalarText(r *rand.Rand, t c03TypeChoice) string {
+	switch k := r.Intn(10); {
+	case k < 5:
+		switch t.typ {
+		case "integer":
+			return "5"
+		case "number":
+			return c03Pick(r, []string{"5", "5.0", "1e1"})
+		case "boolean":
+			return c03Pick(r, []string{"true", "false", "1"})
+		}
+		if xs, ok := c03FmtTexts[t.format]; ok {
+			return xs[0]
+		}
+		return c03Pick(r, []string{"abc", "a"})
+	case k < 8:
+		switch t.typ {
+		case "integer":
+			return c03Pick(r, []string{"101", "0", "-3", "7", "127", "1", "100", "120"})
+		case "number":
+			return c03Pick(r, []string{"100.5", "0.5", "-1", "7", "1e3", "127"})
+		case "string":
+			if t.format == "" {
+				return c03Pick(r, []string{"abcd", "A", "a", "zz9", "a b", "toolong", "x"})
+			}
+		}
+	}
+	return c03Text(r, t)
+}
+
+func c03MultiText(r *rand.Rand, d *c03Decl) string {
+	if d.Type != "array" {
+		return c03MultiScalarText(r, c03TypeChoice{d.Type, d.Format})
+	}
+	sep := c03Seps[d.CF]
+	var parts []string
+	for n := r.Intn(4); n > 0; n-- {
+		parts = append(parts, c03MultiScalarText(r, c03TypeChoice{d.ItemType, d.ItemFormat}))
+	}
+	return strings.Join(parts, sep)
+}
+
+func c03GenMulti(r *rand.Rand) c03In {
+	in := c03In{Kind: "multi"}
+	k := 2 + r.Intn(4)
+	used := map[string]bool{}
+	hasPath := false
+	for len(in.Params) < k {
+		loc := []string{"query", "query", "query", "header", "header", "formData", "formData", "path"}[r.Intn(8)]
+		if loc == "path" && hasPath {
+			continue
+		}
+		name := c03Pick(r, c03MultiNames[loc])
+		if used[name] {
+			continue
+		}
+		used[name] = true
+		d := c03MultiDecl(r, loc, name)
+		p := c03MParam{Decl: d}
+		switch {
+		case loc == "path":
+			hasPath = true
+			p.PathValue = Bs(c03PathSafe(c03MultiText(r, d)))
+		case r.Intn(6) == 0: // not sent: required / default decide
+		default:
+			nocc := 1
+			if r.Intn(6) == 0 {
+				nocc = 2
+			}
+			for j := 0; j < nocc; j++ {
+				v, nm := c03MultiText(r, d), name
+				if loc == "header" {
+					v, nm = c03HeaderSafe(v), c03HeaderVariant(r, name)
+				}
+				p.Pairs = append(p.Pairs, [2]Bs{Bs(nm), Bs(v)})
+			}
+		}
+		in.Params = append(in.Params, p)
+	}
+	in.Multipart = r.Intn(3) == 0
+	return in
+}
+
+// a fixed family (independent of the seed): every pair and some triples of {passes, breaks a validation, unparsable,
+// required and missing} over integer / string / array parameters in different locations
+func c03EnumMulti() []any {
+	type variant struct {
+		d    c03Decl
+		good string
+	}
+	vs := []variant{
+		{c03Decl{Name: "limit9", In: "query", Type: "integer", Format: "int32", Extra: map[string]json.RawMessage{"maximum": c03JSON(100)}}, "5"},
+		{c03Decl{Name: "x-low7", In: "header", Type: "integer", Format: "int64", Extra: map[string]json.RawMessage{"minimum": c03JSON(1)}}, "5"},
+		{c03Decl{Name: "q_1", In: "query", Type: "string", Extra: map[string]json.RawMessage{"enum": c03JSON([]string{"a", "abc", "a b"})}}, "abc"},
+		{c03Decl{Name: "fcolour3", In: "formData", Type: "string", Extra: map[string]json.RawMessage{"pattern": c03JSON("^[a-z]+$")}}, "abc"},
+		{c03Decl{Name: "tags7", In: "query", Type: "array", ItemType: "string", CF: "csv", Extra: map[string]json.RawMessage{"maxItems": c03JSON(2)}}, "a,b"},
+		{c03Decl{Name: "id9", In: "path", Type: "string", Required: true, Extra: map[string]json.RawMessage{"maxLength": c03JSON(3)}}, "abc"},
+	}
+	bad := map[string][2]string{ // breaks the validation, unparsable for the type ("" = none)
+		"limit9": {"101", "zzz"}, "x-low7": {"0", "1e3"}, "q_1": {"abcd", ""}, "fcolour3": {"A1", ""}, "tags7": {"a,b,c", ""}, "id9": {"abcd", ""},
+	}
+	// situation of one parameter: 0 passes, 1 breaks its validation, 2 unparsable, 3 required and not sent
+	mk := func(v variant, sit int) (c03MParam, bool) {
+		d := v.d
+		p := c03MParam{Decl: &d}
+		txt := v.good
+		switch sit {
+		case 1:
+			txt = bad[d.Name][0]
+		case 2:
+			txt = bad[d.Name][1]
+			if txt == "" {
+				return p, false
+			}
+		case 3:
+			if d.In == "path" {
+				return p, false
+			}
+			d.Required = true
+			return p, true
+		}
+		if d.In == "path" {
+			p.PathValue = Bs(txt)
+		} else {
+			p.Pairs = [][2]Bs{{Bs(d.Name), Bs(txt)}}
+		}
+		return p, true
+	}
+	var out []any
+	for a := 0; a < len(vs); a++ {
+		for b := a + 1; b < len(vs); b++ {
+			for sa := 0; sa < 4; sa++ {
+				for sb := 0; sb < 4; sb++ {
+					pa, oka := mk(vs[a], sa)
+					pb, okb := mk(vs[b], sb)
+					if !oka || !okb || (sa == 0 && sb == 0 && a > 0) {
+						continue
+					}
+					out = append(out, c03In{Kind: "multi", Params: []c03MParam{pa, pb}, Multipart: (a+b)%2 == 1})
+				}
+			}
+		}
+	}
+	// all six at once: every one breaking its validation; all but one; alternating with unparsable / missing
+	for mode := 0; mode < 8; mode++ {
+		in := c03In{Kind: "multi"}
+		for i, v := range vs {
+			sit := 1
+			switch {
+			case mode >= 1 && mode <= 6 && i == mode-1:
+				sit = 0
+			case mode == 7:
+				sit = []int{1, 2, 1, 3, 0, 1}[i]
+			}
+			p, ok := mk(v, sit)
+			if !ok {
+				p, _ = mk(v, 1)
+			}
+			in.Params = append(in.Params, p)
+		}
+		out = append(out, in)
+	}
+	return out
+}
+
+func c03MultiShape(in c03In) c03Shape {
+	var sh c03Shape
+	for _, p := range in.Params {
+		switch p.Decl.In {
+		case "query":
+			sh.query = append(sh.query, p.Pairs...)
+		case "header":
+			sh.header = append(sh.header, p.Pairs...)
+		case "formData":
+			sh.form, sh.hasForm = append(sh.form, p.Pairs...), true
+		case "path":
+			if sh.pathKey == "" {
+				sh.pathKey, sh.pathVal = p.Decl.Name, string(p.PathValue)
+			}
+		}
+	}
+	return sh
+}
+
+func c03ErrLeaves(err error, out *[]string) {
+	if err == nil {
+		return
+	}
+	if ce, ok := err.(*oaerrors.CompositeError); ok {
+		if ce == nil {
+			return
+		}
+		for _, e := range ce.Errors {
+			c03ErrLeaves(e, out)
+		}
+		return
+	}
+	*out = append(*out, err.Error())
+}
+
+func c03RunMulti(in c03In) c03Obs {
+	var obs c03Obs
+	ds := make([]*c03Decl, len(in.Params))
+	for i, p := range in.Params {
+		ds[i] = p.Decl
+		for j := 0; j < i; j++ {
+			a, b := strings.ToLower(ds[j].Name), strings.ToLower(p.Decl.Name)
+			if strings.Contains(a, b) || strings.Contains(b, a) {
+				panic("harness: multi case with names that contain each other: " + a + " " + b)
+			}
+		}
+	}
+	sh := c03MultiShape(in)
+	raw := c03RawOf(sh, in.Multipart, nil)
+	env := c03BuildAll(ds, sh)
+	formats := env.api.Formats()
+	c03Sources(env, raw, sh, in.Multipart, &obs)
+	obs.Multi = make([]c03MObs, len(ds))
+	for i, d := range ds {
+		obs.Multi[i].Tab = c03Tables(d, env.params[i], env, raw, &obs)
+	}
+
+	// the route's real request binder on the request (what Context.BindAndValidate calls)
+	obs.Panicked, obs.Panic = recoverTo(func() {
+		req := c03ReadRequest(raw)
+		mr, _, ok := env.ctx.RouteInfo(req)
+		if !ok {
+			panic("harness: the generated request does not match the generated route")
+		}
+		data := map[string]interface{}{}
+		err := mr.Binder.Bind(req, mr.Params, mr.Consumer, &data)
+		c03ErrLeaves(err, &obs.BindErr)
+		if err != nil && len(obs.BindErr) == 0 {
+			obs.BindErr = []string{err.Error()}
+		}
+	})
+	for i, d := range ds {
+		for _, m := range obs.BindErr {
+			if strings.Contains(m, d.Name) {
+				obs.Multi[i].Named = true
+			}
+		}
+	}
+	if obs.Panicked {
+		obs.Outcome = "panic"
+		return obs
+	}
+	// and the whole handler: status, whether the operation ran, the values it received
+	rec := httptest.NewRecorder()
+	obs.Panicked, obs.Panic = recoverTo(func() {
+		env.handler.ServeHTTP(rec, c03ReadRequest(raw))
+	})
+	obs.Ran = env.ran
+	if obs.Panicked {
+		obs.Outcome = "panic"
+		return obs
+	}
+	obs.Status = rec.Code
+	if env.ran && rec.Code == 200 {
+		for i, d := range ds {
+			if x, ok := env.got[d.Name]; ok {
+				m := &obs.Multi[i]
+				m.HasVal = true
+				m.Val = fmt.Sprintf("%T %#v", x, x)
+				if len(m.Val) > 200 {
+					m.Val = m.Val[:200]
+				}
+				m.ValCoq, _ = c03GVal(x, d, formats)
+			}
+		}
+		obs.Outcome = "bound"
+		return obs
+	}
+	obs.Outcome = fmt.Sprintf("status-%d", rec.Code)
+	return obs
+}
+
+func c03CoqDecl(d *c03Decl, defCoq string) string {
+	loc := map[string]string{"query": "LQuery", "header": "LHeader", "path": "LPath", "formData": "LForm"}[d.In]
+	itemKind := "None"
+	if d.Type == "array" {
+		itemKind = "(Some " + c03Kind(d.ItemType) + ")"
+	}
+	return fmt.Sprintf("{| d_name := %s; d_in := %s; d_kind := %s; d_format := %s; d_item_kind := %s; d_item_format := %s; d_cf := %s; d_required := %s; d_default := %s; d_allow_empty := %s |}",
+		coqBytes(d.Name), loc, c03Kind(d.Type), coqBytes(d.Format), itemKind, coqBytes(d.ItemFormat), coqBytes(d.CF), coqBool(d.Required), defCoq, coqBool(d.AllowEmpty))
+}
+
+func c03CoqRequest(obs c03Obs) string {
+	return fmt.Sprintf("{| r_query := %s; r_header := %s; r_path := %s; r_form := %s |}", c03Pairs(obs.Query), c03Pairs(obs.Header), c03Pairs(obs.Path), c03Pairs(obs.Form))
+}
+
+func c03CoqFmts(es []c03FmtEnt) string {
+	return coqList(es, func(e c03FmtEnt) string {
+		return coqPair(coqPair(coqBytes(e.F), coqBytes(string(e.T))), coqOpt(e.OK, coqBytes(string(e.R))))
+	})
+}
+
+func c03CoqFloats(es []c03FloatEnt) string {
+	return coqList(es, func(e c03FloatEnt) string {
+		return coqPair(coqBytes(string(e.T)), coqOpt(e.OK, fmt.Sprintf("((%d)%%Z, %s, (%d)%%Z)", e.B64, coqBool(e.Ov32), e.B32)))
+	})
+}
+
+func c03CoqValid(valid int) string {
+	if valid == 0 {
+		return "None"
+	}
+	if valid < 0 {
+		valid = 0
+	}
+	return fmt.Sprintf("(Some %s)", coqNatBig(valid))
+}
+
+// CMulti ps rq ran panicked status named; ps = list of MP decl regs fmts floats valid got
+func c03CoqMulti(in c03In, obs c03Obs) string {
+	type ent struct {
+		p c03MParam
+		o c03MObs
+	}
+	es := make([]ent, len(in.Params))
+	var named []string
+	for i := range in.Params {
+		es[i] = ent{in.Params[i], obs.Multi[i]}
+		if obs.Multi[i].Named {
+			named = append(named, in.Params[i].Decl.Name)
+		}
+	}
+	ps := coqList(es, func(e ent) string {
+		got := "None"
+		if e.o.HasVal && e.o.ValCoq != "" {
+			got = "(Some " + e.o.ValCoq + ")"
+		}
+		return fmt.Sprintf("(MP %s %s %s %s %s %s)", c03CoqDecl(e.p.Decl, e.o.Tab.DefCoq), coqBytesList(e.o.Tab.Regs), c03CoqFmts(e.o.Tab.Fmts), c03CoqFloats(e.o.Tab.Floats), c03CoqValid(e.o.Tab.Valid), got)
+	})
+	return fmt.Sprintf("CMulti %s %s %s %s %s %s", ps, c03CoqRequest(obs), coqBool(obs.Ran), coqBool(obs.Panicked), coqNatBig(obs.Status), coqBytesList(named))
+}
+
+func c03CategoryMulti(in c03In, obs c03Obs) (string, bool) {
+	byValid, byBinder, named := 0, 0, 0
+	locs := map[string]bool{}
+	for i, p := range in.Params {
+		locs[p.Decl.In] = true
+		o := obs.Multi[i]
+		switch {
+		case o.Tab.BindFailed:
+			byBinder++
+		case o.Tab.Valid != 0:
+			byValid++
+		}
+		if o.Named {
+			named++
+		}
+	}
+	return fmt.Sprintf("multi/k=%d/locations=%d/rejected-by-validation=%d/rejected-by-type-or-required=%d/named=%d/%s", len(in.Params), len(locs), byValid, byBinder, named, obs.Outcome),
+		byValid+byBinder > 0 || len(in.Params) >= 2
+}
